@@ -77,4 +77,44 @@ def scan(paths, features=()):
                     fs_.append(mm.group(1))
                     FIELD_TYPES.setdefault(m.group(1), {})[mm.group(1)] = ' '.join(mm.group(2).split())
             structs.setdefault(m.group(1), fs_)
+        for m in re.finditer(r'\bstruct\s+(\w+)\s*(<[^{;(]*>)?\s*\(', s):
+            structs.setdefault(m.group(1), [])
     return enums, structs
+
+
+def fn_generics(paths):
+    """{simple fn name: [type parameter names]} for every `fn name<..>(` in the sources (lifetimes and const params skipped).
+    Trait/impl blocks contribute `Self` implicitly; that is handled by the caller."""
+    out = {}
+    files = []
+    for p in paths:
+        if os.path.isdir(p):
+            for d, _, fs in os.walk(p):
+                files += [os.path.join(d, f) for f in fs if f.endswith('.rs')]
+        else:
+            files.append(p)
+    for f in sorted(files):
+        with open(f) as fh:
+            s = _strip_comments(fh.read())
+        for m in re.finditer(r'\bfn\s+(\w+)\s*<', s):
+            depth, i = 0, m.end() - 1
+            while i < len(s):
+                if s[i] == '<':
+                    depth += 1
+                elif s[i] == '>' and s[i - 1] != '-':
+                    depth -= 1
+                    if depth == 0:
+                        break
+                i += 1
+            params = []
+            for part in _split_top(s[m.end():i]):
+                part = part.strip()
+                if not part or part.startswith("'") or part.startswith('const '):
+                    continue
+                params.append(re.match(r'^(\w+)', part).group(1))
+            prev = out.get(m.group(1))
+            if prev is not None and prev != params:
+                out[m.group(1)] = None        # ambiguous simple name
+            else:
+                out[m.group(1)] = params
+    return out
